@@ -35,7 +35,7 @@ Definition dinit : dstate := mkD [] [] [].
 
 Section Dispatch.
 Variable mro : cls -> list cls.          (* type.__mro__ without object; head = the class *)
-Variable accepts : pd -> cls -> bool.    (* predicate applied to an instance of the class *)
+Variable accepts : pd -> nat -> bool.    (* predicate applied to an INSTANCE (a tag: predicates may look at the value, not only at its class) *)
 
 (** register_pretty(type)(fn) - lines 536-546 (with the deferred pop of fix 4) *)
 Definition reg_class (st : dstate) (c : cls) (p : pr) : dstate :=
@@ -77,25 +77,25 @@ Definition isreg (st : dstate) (c : cls) (cs cd rd : bool) : option bool * dstat
 
 Inductive chosen := ByPrinter (p : pr) | ByRepr.
 
-Fixpoint first_pred (l : list (pd * pr)) (c : cls) : chosen :=
+Fixpoint first_pred (l : list (pd * pr)) (i : nat) : chosen :=
   match l with
   | [] => ByRepr
-  | (q, p) :: tl => if accepts q c then ByPrinter p else first_pred tl c
+  | (q, p) :: tl => if accepts q i then ByPrinter p else first_pred tl i
   end.
 
 (** pretty_python_value: is_registered(..., True, True, True) then dispatch *)
-Definition print (st : dstate) (c : cls) : chosen * dstate :=
+Definition print (st : dstate) (c : cls) (i : nat) : chosen * dstate :=
   let st' := snd (isreg st c true true true) in
   (match first_val (mro c) (d_reg st') with
    | Some p => ByPrinter p
-   | None => first_pred (d_preds st') c
+   | None => first_pred (d_preds st') i
    end, st').
 
 Inductive dop :=
 | RegClass (c : cls) (p : pr)
 | RegName (c : cls) (p : pr)
 | RegPred (q : pd) (p : pr)
-| Print (c : cls)
+| Print (c : cls) (i : nat)        (* an instance i of class c is printed *)
 | IsReg (c : cls) (cs cd rd : bool).
 
 Inductive dobs := OUnit | OChosen (x : chosen) | OBool (b : option bool).
@@ -105,7 +105,7 @@ Definition dstep (st : dstate) (o : dop) : dobs * dstate :=
   | RegClass c p => (OUnit, reg_class st c p)
   | RegName c p => (OUnit, reg_name st c p)
   | RegPred q p => (OUnit, reg_pred st q p)
-  | Print c => let '(x, st') := print st c in (OChosen x, st')
+  | Print c i => let '(x, st') := print st c i in (OChosen x, st')
   | IsReg c cs cd rd => let '(b, st') := isreg st c cs cd rd in (OBool b, st')
   end.
 
@@ -121,10 +121,10 @@ Fixpoint drun (st : dstate) (h : list dop) : list dobs :=
 Record sstate := mkS { s_latest : amap; s_preds : list (pd * pr) }.
 Definition sinit : sstate := mkS [] [].
 
-Definition schosen (st : sstate) (c : cls) : chosen :=
+Definition schosen (st : sstate) (c : cls) (i : nat) : chosen :=
   match first_val (mro c) (s_latest st) with
   | Some p => ByPrinter p
-  | None => first_pred (s_preds st) c
+  | None => first_pred (s_preds st) i
   end.
 
 (** is_registered with check_deferred = True per the rule *)
@@ -135,7 +135,7 @@ Definition sstep (st : sstate) (o : dop) : sstate :=
   match o with
   | RegClass c p | RegName c p => mkS (aupdate c p (s_latest st)) (s_preds st)
   | RegPred q p => mkS (s_latest st) (s_preds st ++ [(q, p)])
-  | Print _ | IsReg _ _ _ _ => st
+  | Print _ _ | IsReg _ _ _ _ => st
   end.
 
 End Dispatch.
